@@ -9,6 +9,7 @@ shared::join_algorithm::perform_hash_join_for_rules with the model's bucketed `h
 import itertools
 import json
 import os
+import re
 import vf
 
 SUB = "Datalog"
@@ -41,7 +42,7 @@ def c_atom(a):
 
 def c_filter(f):
     if "var" in f:
-        return "%s %d %d" % ("FVarEq" if f["op"] == "=" else "FVarNe", f["x"], f["var"])
+        return "FVar %d %s %d" % (f["x"], OPS[f["op"]], f["var"])
     return "FNum %d %s (%d)%%Z" % (f["x"], OPS[f["op"]], f["num"])
 
 
@@ -88,14 +89,43 @@ def known_par(case):
     return any(par_unsupported(r) for r in case["rules"])
 
 
+def known_varcmp(case):
+    """known_C05_varcmp (Classes.v): a filter compares two variables with an operator other than = / !=."""
+    return any("var" in f and f["op"] not in ("=", "!=") for r in case["rules"] for f in r.get("filt", []))
+
+
 def known_neg(case):
     return any(len(r.get("neg", [])) > 0 for r in case["rules"])
 
 
+SYNTH_RE = re.compile(r"^__const_(subj|obj)_(0|[1-9][0-9]*)$")
+
+
+def case_vars(case):
+    vs = []
+    for r in case["rules"]:
+        for a in r["prem"] + r["concl"] + r.get("neg", []):
+            vs += atom_vars(a)
+        for f in r.get("filt", []):
+            vs.append(f["x"])
+            if "var" in f:
+                vs.append(f["var"])
+    return sorted(set(vs))
+
+
 def known_synth(case):
-    """C05-synthetic-var-capture: a rule variable is named like one of the join's synthetic variables.  Variable names
-    are abstract numbers in the Coq model (keys KV / KS / KO are distinct constructors), so this class exists only here."""
-    return any(str(n).startswith(("__const_subj_", "__const_obj_")) for n in (case.get("varnames") or {}).values())
+    """C05-synthetic-var-capture = negb (no_synthetic_names names P) of coq/Datalog/VarKeys.v: some variable of the program is
+    spelled exactly like a name the join invents for a constant subject/object ("__const_subj_<decimal id>")."""
+    names = case.get("varnames") or {}
+    return any(SYNTH_RE.match(str(names.get(str(v), "X%d" % v))) for v in case_vars(case))
+
+
+def c_run_spelled(case):
+    tbl = "; ".join("(%d, (%d)%%Z)" % (i, numeric_value(s)) for i, s in enumerate(case["dict"]) if numeric_value(s) != 0)
+    names = "; ".join('(%d, "%s"%%string)' % (int(k), v.replace('"', '""')) for k, v in sorted((case.get("varnames") or {}).items()))
+    return "run_spelled [%s] [%s] %d%%nat [%s] [%s]" % (names, tbl, fuel_for(case),
+                                                         "; ".join(c_rule(r) for r in case["rules"]),
+                                                         "; ".join(c_fact(f) for f in case["facts"]))
 
 
 def term_compat(t, u):
@@ -203,7 +233,7 @@ def random_program(rng, profile="general"):
             for _ in range(rng.choice([1, 1, 2])):
                 if len(pv) >= 2 and rng.random() < 0.5:
                     x, y = rng.sample(pv, 2)
-                    filt.append({"x": x, "op": rng.choice(["=", "!="]), "var": y})
+                    filt.append({"x": x, "op": rng.choice(["=", "!=", "!=", "<", ">="] if rng.random() < 0.5 else ["=", "!="]), "var": y})
                 else:
                     filt.append({"x": rng.choice(pv), "op": rng.choice(list(OPS)), "num": rng.choice([0, 1, 2, 3, 5, 8, -1])})
         neg = []
@@ -389,8 +419,8 @@ def evaluate_large(ctx, binpath, cases, stream, threads=None):
             ctx.broken("correspondence", stream, "Spec evaluation failed on a large case: %s" % (mo[1],), {"large": c["large"], "n": c["n"]})
             want.append(None)
             continue
-        lm, strat, (kpar, kneg, safe, kfeed) = mo
-        if (kpar, kneg, safe, kfeed) != (known_par(c), known_neg(c), all(safe_rule(r) for r in c["rules"]), known_neg_feed(c)):
+        lm, strat, (kpar, kneg, safe, kfeed, kvar) = mo
+        if (kpar, kneg, safe, kfeed, kvar) != (known_par(c), known_neg(c), all(safe_rule(r) for r in c["rules"]), known_neg_feed(c), known_varcmp(c)):
             ctx.broken("correspondence", stream, "class predicates of checks/c05.py and Classes.v disagree", {"large": c["large"], "n": c["n"]})
             want.append(None)
             continue
@@ -524,19 +554,33 @@ def evaluate_programs(ctx, binpath, cases, stream, pairs=None):
           "known_par_reproduced": 0, "known_neg_reproduced": 0, "derived_facts": 0, "empty_derivation": 0,
           "rules": 0, "premises": 0, "var_predicate_premises": 0, "filters": 0, "two_conclusions": 0, "facts": 0,
           "negated_atoms": 0, "unstratified_skipped": 0, "in_known_neg_feed": 0, "known_neg_feed_reproduced": 0}
+    spelled_idx = [i for i, c in enumerate(cases) if c.get("varnames")]
+    spelled = dict(zip(spelled_idx, ctx.run_model(SUB, REQ, [c_run_spelled(cases[i]) for i in spelled_idx],
+                                                  preamble=PRE + " Import String.StringSyntax."))) if spelled_idx else {}
     results = []
-    for c, im, mo in zip(cases, impl, model):
+    for ci, (c, im, mo) in enumerate(zip(cases, impl, model)):
         ctx.count()
         results.append(None)
         if isinstance(mo, tuple) and mo and mo[0] == "ERROR":
             ctx.broken("correspondence", stream, "model evaluation failed: %s" % (mo[1],), c)
             continue
         m = {s: model_triple(mo[i]) for i, s in enumerate(STRATS)}
+        m_spelled = None
+        if ci in spelled:
+            sp = spelled[ci]
+            if isinstance(sp, tuple) and sp and sp[0] == "ERROR":
+                ctx.broken("correspondence", stream, "model evaluation (spelled variant) failed: %s" % (sp[1],), c)
+                continue
+            if sp[0] != known_synth(c):
+                ctx.broken("correspondence", stream, "known_synth of checks/c05.py and no_synthetic_names of VarKeys.v disagree", c)
+                continue
+            m_spelled = model_triple(sp[1])     # the naive strategy with the join keys the spellings denote
         spec = None if mo[4] is None else fset(mo[4][1])
         kpar_m, kneg_m, safe_m = mo[5]
-        strat, kfeed_m, accepted_m = mo[6]
+        strat, kfeed_m, accepted_m, kvar_m = mo[6]
         kpar, kneg, safe = known_par(c), known_neg(c), all(safe_rule(r) for r in c["rules"])
         kfeed = known_neg_feed(c)
+        kvar = known_varcmp(c)
         if not accepted_m:
             # unsafe negation: Reasoner::try_add_rule must reject the program (shared/src/rule.rs check_rule_safety)
             st["unsafe_negation"] = st.get("unsafe_negation", 0) + 1
@@ -545,7 +589,7 @@ def evaluate_programs(ctx, binpath, cases, stream, pairs=None):
                 ctx.broken("correspondence", stream, "a rule with an unsafe negated atom was not rejected by try_add_rule (model: check_rule_safety = false)",
                            {"case": c, "impl": im})
             continue
-        if (kpar, kneg, safe, kfeed) != (kpar_m, kneg_m, safe_m, kfeed_m):
+        if (kpar, kneg, safe, kfeed, kvar) != (kpar_m, kneg_m, safe_m, kfeed_m, kvar_m):
             ctx.broken("correspondence", stream, "class predicates of checks/c05.py and Classes.v disagree", c)
             continue
         if spec is None or any(m[s] is None for s in STRATS):
@@ -591,13 +635,17 @@ def evaluate_programs(ctx, binpath, cases, stream, pairs=None):
             in_neg = kneg and s != "prov"
             in_feed = kneg and s == "prov" and kfeed
             in_synth = known_synth(c) and s != "par"
+            in_varcmp = kvar and s != "par"
             if not stratified:
                 want = None     # the two-level split is not a stratification of this program: no specified answer
             else:
                 want = {"all": spec, "new": derived, "again": []}
             got = {k: i[k] for k in ("all", "new", "again")}
             ok_spec = want is None or (got == want and not i["dups"] and i["all2"] == i["all"])
-            ok_model = got == m[s] or (in_synth and is_known(ctx, "C05-synthetic-var-capture"))
+            if s == "naive" and m_spelled is not None:
+                ok_model = got == m_spelled      # inside the class too: the spelled variant reproduces the capture
+            else:
+                ok_model = got == m[s] or (in_synth and is_known(ctx, "C05-synthetic-var-capture"))
             if not ok_model:
                 st["impl_model_mismatches"] += 1
             if in_par:
@@ -607,7 +655,9 @@ def evaluate_programs(ctx, binpath, cases, stream, pairs=None):
             if in_feed:
                 st["in_known_neg_feed"] += 1
             if not ok_spec:
-                if in_synth and is_known(ctx, "C05-synthetic-var-capture"):
+                if in_varcmp and is_known(ctx, "C05-filter-var-order-ignored"):
+                    st["known_varcmp_reproduced"] = st.get("known_varcmp_reproduced", 0) + 1
+                elif in_synth and is_known(ctx, "C05-synthetic-var-capture"):
                     st["known_synth_reproduced"] = st.get("known_synth_reproduced", 0) + 1
                 elif in_neg and is_known(ctx, "C05-negation-ignored"):
                     st["known_neg_reproduced"] += 1
@@ -637,6 +687,8 @@ def evaluate_programs(ctx, binpath, cases, stream, pairs=None):
                         if s == "par" and known_par(cases[a]) and is_known(ctx, "C05-parallel-shapes"):
                             continue
                         if known_neg(cases[a]) and (s != "prov" or known_neg_feed(cases[a])):
+                            continue
+                        if known_varcmp(cases[a]) and s != "par":
                             continue
                         ctx.violation({"case": cases[a], "reordered": cases[b], "strategy": s},
                                       {"what": "result depends on rule/fact order", "first": ra[s], "second": rb[s]})
